@@ -524,26 +524,39 @@ func TestC40(t *testing.T) {
 		per = 2500
 	}
 
-	type job struct{ batch, count, only int }
+	type job struct {
+		batch, count, only int
+		seed               int64
+	}
 
 	jobs := []job{}
 
 	if c := vh.ReplayCase(); c != nil {
 		var rc struct {
-			Batch int `json:"batch"`
-			Index int `json:"index"`
-			Count int `json:"count"`
+			Batch int   `json:"batch"`
+			Index int   `json:"index"`
+			Count int   `json:"count"`
+			Seed  int64 `json:"seed"`
 		}
 
 		if err := json.Unmarshal(c, &rc); err != nil || rc.Count == 0 {
 			t.Fatalf("replay case: %v %s", err, c)
 		}
 
-		jobs = append(jobs, job{rc.Batch, rc.Count, rc.Index})
+		if rc.Seed == 0 {
+			rc.Seed = vh.Seed()
+		}
+
+		jobs = append(jobs, job{rc.Batch, rc.Count, rc.Index, rc.Seed})
 	} else {
 		for b, left := 0, total; left > 0; b, left = b+1, left-per {
-			jobs = append(jobs, job{b, min(per, left), -1})
+			jobs = append(jobs, job{b, min(per, left), -1, vh.Seed()})
 		}
+	}
+
+	self, err := os.Executable()
+	if err != nil {
+		t.Fatal(err)
 	}
 
 	parallel := runtime.NumCPU() - 2
@@ -581,10 +594,14 @@ func TestC40(t *testing.T) {
 			defer wg.Done()
 			defer func() { <-sem }()
 
+			// Pdeathsig (below) is delivered when the OS thread that started the child exits, so this
+			// goroutine keeps its thread for as long as the child runs
+			runtime.LockOSThread()
+
 			logPath := filepath.Join(dir, fmt.Sprintf("child-b%d.log", j.batch))
 			lf, _ := os.Create(logPath)
-			cmd := exec.Command(os.Args[0], "-test.run", "^TestC40Worker$", "-test.timeout", "0", "-test.count", "1")
-			cmd.Env = append(os.Environ(), "C40_DIR="+dir, fmt.Sprintf("C40_BATCH=%d", j.batch), fmt.Sprintf("C40_COUNT=%d", j.count), "VERIF_OUT="+filepath.Join(dir, "ignored.json"), "GOTRACEBACK=all")
+			cmd := exec.Command(self, "-test.run", "^TestC40Worker$", "-test.timeout", "0", "-test.count", "1")
+			cmd.Env = append(os.Environ(), "C40_DIR="+dir, fmt.Sprintf("C40_BATCH=%d", j.batch), fmt.Sprintf("C40_COUNT=%d", j.count), "VERIF_OUT="+filepath.Join(dir, "ignored.json"), "GOTRACEBACK=all", fmt.Sprintf("VERIF_SEED=%d", j.seed))
 
 			if j.only >= 0 {
 				cmd.Env = append(cmd.Env, fmt.Sprintf("C40_ONLY=%d", j.only))
@@ -598,6 +615,11 @@ func TestC40(t *testing.T) {
 			timer := time.AfterFunc(time.Duration(900+2*j.count)*time.Second, func() { timedOut = true; _ = cmd.Process.Kill() })
 			err := cmd.Run()
 			timer.Stop()
+
+			if err != nil {
+				fmt.Fprintf(lf, "\n[parent] child ended: %v\n", err)
+			}
+
 			lf.Close()
 
 			var res c40Result
@@ -687,7 +709,7 @@ func TestC40(t *testing.T) {
 		}
 
 		if res.LogRecovered > 0 {
-			r.Violate(vh.Violation{Key: "recovered:log-entry", Desc: fmt.Sprintf("batch %d: %d server.panic.recovered entries in the server log", res.Batch, res.LogRecovered), Case: map[string]any{"batch": res.Batch, "count": per, "index": per - 1}})
+			r.Violate(vh.Violation{Key: "recovered:log-entry", Desc: fmt.Sprintf("batch %d: %d server.panic.recovered entries in the server log", res.Batch, res.LogRecovered), Case: map[string]any{"seed": vh.Seed(), "batch": res.Batch, "count": per, "index": per - 1}})
 		}
 
 		for i := range res.Panics {
@@ -733,7 +755,7 @@ func TestC40(t *testing.T) {
 		r.Violate(vh.Violation{Key: "panic:" + p.Site,
 			Desc: fmt.Sprintf("%s %s as %q body %s -> handler panic %s (seen %d times; minimised: %s %s headers %v body %q)", p.Request.Method, vh.Trunc(p.Request.Path, 160), p.Request.User, vh.Trunc(p.Request.BodyIs, 80),
 				p.Value, p.Count, p.Minimized.Method, vh.Trunc(p.Minimized.Path, 160), p.Minimized.Header, vh.Trunc(p.MinBody, 120)),
-			Case:     map[string]any{"batch": p.Batch, "index": p.Index, "count": per, "request": p.Request, "minimized": p.Minimized, "minimized_body": p.MinBody},
+			Case:     map[string]any{"seed": vh.Seed(), "batch": p.Batch, "index": p.Index, "count": per, "request": p.Request, "minimized": p.Minimized, "minimized_body": p.MinBody},
 			Observed: p.Stack})
 	}
 
@@ -763,7 +785,7 @@ func TestC40(t *testing.T) {
 		}
 
 		r.Violate(vh.Violation{Key: key, Desc: fmt.Sprintf("child process of batch %d died (%s); request in flight: %s", d.batch, reason, vh.Trunc(d.last, 600)),
-			Case: map[string]any{"batch": d.batch, "count": per, "index": lastIndex(d.last), "last": vh.Trunc(d.last, 2000)}, Observed: d.logTail})
+			Case: map[string]any{"seed": vh.Seed(), "batch": d.batch, "count": per, "index": lastIndex(d.last), "last": vh.Trunc(d.last, 2000)}, Observed: d.logTail})
 	}
 
 	if r.Evaluations == 0 && len(deaths) == 0 {
